@@ -472,7 +472,7 @@ package node
 //@   ensures result2 == nil ==> result1 != nil
 //@ func parseIndexQueryLimit(args [][]byte) (int, int, error)
 //@ func (nd *KVNode) hindexSearchCommand(cmd redcon.Command) (interface{}, error)
-//@   requires nd != nil && nd.store != nil && nd.rn != nil && len(cmd.Args) >= 1
+//@   requires nd != nil && nd.store != nil && nd.store.RockDB != nil && nd.rn != nil && len(cmd.Args) >= 1
 //@   modifies *
 //@ loop 1
 //@   invariant true
